@@ -65,12 +65,52 @@ type World struct {
 	// SkipAuth disables the authenticity monitors (worlds whose server is not one of Logs); the
 	// config writes are then only checked for a valid signature and a non-decreasing size.
 	SkipAuth bool
+	// ShareBytes makes ReadCache and ReadRemote hand out the stored bytes themselves instead of private
+	// copies, and the same bytes to every caller asking for the same thing (an mmap'ed cache, a memoising
+	// transport): what the client is handed is not the client's to write to. HandedOutIntact tells whether
+	// every such buffer still holds what it held; under the race detector a write is a report in any case.
+	ShareBytes bool
+	shared     map[string][]byte
+	handed     []handedOut
 	// FailConfigRead injects an I/O error into the n-th ReadConfig of a file other than "key" (1-based), 0 = never.
 	FailConfigRead int
 	nConfigRead    int
 	// FailConfigWrite injects a non-conflict error into the n-th WriteConfig (1-based), 0 = never.
 	FailConfigWrite int
 	nConfigWrite    int
+}
+
+type handedOut struct {
+	what        string
+	buf, shadow []byte
+}
+
+// share returns the one buffer handed out for (what, data) in a ShareBytes world.
+func (w *World) share(what string, data []byte) []byte {
+	w.mu.Lock()
+	defer w.mu.Unlock()
+	if w.shared == nil {
+		w.shared = map[string][]byte{}
+	}
+	if b, ok := w.shared[what]; ok && bytes.Equal(b, data) {
+		return b
+	}
+	b := append(make([]byte, 0, len(data)+16), data...) // spare capacity: an append would not reallocate
+	w.shared[what] = b
+	w.handed = append(w.handed, handedOut{what, b[:len(b):cap(b)], append([]byte(nil), b[:cap(b)]...)})
+	return b
+}
+
+// HandedOutIntact reports the buffers of a ShareBytes world that no longer hold what they were handed out with.
+func (w *World) HandedOutIntact() (changed []string) {
+	w.mu.Lock()
+	defer w.mu.Unlock()
+	for _, h := range w.handed {
+		if !bytes.Equal(h.buf[:cap(h.buf)], h.shadow) {
+			changed = append(changed, h.what)
+		}
+	}
+	return changed
 }
 
 // New makes a world around the given branches.
@@ -262,6 +302,9 @@ func (o *Ops) ReadRemote(path string) ([]byte, error) {
 	if err != nil {
 		return nil, err
 	}
+	if w.ShareBytes {
+		return w.share("remote:"+path, data), nil
+	}
 	return append([]byte(nil), data...), nil
 }
 
@@ -363,6 +406,9 @@ func (o *Ops) ReadCache(file string) ([]byte, error) {
 		return nil, errNotFound
 	}
 	o.W.log(o.ID, "ReadCache", file, "hit")
+	if w.ShareBytes {
+		return w.share("cache:"+file, v), nil
+	}
 	return append([]byte(nil), v...), nil
 }
 
